@@ -26,8 +26,11 @@ cd /verif
 git -C /repo worktree remove --force $SV
 rm -f /repo/core/environment/runcounter.txt.seed 2>/dev/null
 echo "== our check $P against the change"
-git -C /repo apply $OUT/patch.diff && ./check $P > /tmp/sv-$id-check.log 2>&1; echo "check-exit=$?"
-git -C /repo checkout -- . ; git -C /repo status --short | grep -v runcounter
+# SEED_REPO=<worktree of /repo>: run the check against that tree instead of /repo itself (VERIF_REPO)
+R=${SEED_REPO:-/repo}
+if [ "$R" != /repo ]; then export VERIF_REPO=$R VERIF_WORK=${VERIF_WORK:-/tmp/vw-seed}; fi
+git -C $R apply $OUT/patch.diff && ./check $P > /tmp/sv-$id-check.log 2>&1; echo "check-exit=$?"
+git -C $R checkout -- . ; git -C $R status --short | grep -v runcounter
 grep -v "^KNOWN" /tmp/sv-$id-check.log | cut -c1-260 | tail -8
 # store
 D=/verif/seeded/$SID; mkdir -p $D; cp $OUT/patch.diff $D/; rm -rf $D/demo; cp -r $OUT/demo $D/demo; cp $OUT/notes.md $D/notes.md 2>/dev/null
